@@ -173,7 +173,7 @@ def resolve_after_none(seed):
             fails.append(('C13', 'none_after_edit', 'an infeasible re-solve returned %r' % (t,)))
         else:
             from PEPit.point import Point
-            for what, fn in [('leaf point', Point.list_of_leaf_points[0].eval)] + held + [('objective', pep.objective.eval)]:
+            for what, fn in [('leaf point', Point.list_of_leaf_points[0].eval)] + held + [('objective', pep.objective.eval)] + _dual_table_accessors():
                 try:
                     v = fn()
                     fails.append(('C13', 'stale_after_none', '%s still evaluates to a number of the earlier solve after a solve that found no value' % what))
@@ -301,6 +301,7 @@ def no_value(seed):
                 [('expression', e.eval) for e in h['exprs']] + [('objective', pep.objective.eval)] + \
                 [('constraint.eval', c.eval) for c in h['constraints'] + pep.list_of_constraints] + \
                 [('constraint.eval_dual', c.eval_dual) for c in h['constraints'] + pep.list_of_constraints]
+    accessors += _dual_table_accessors()
     for what, fn in accessors:
         try:
             v = fn()
@@ -310,6 +311,13 @@ def no_value(seed):
         except Exception as e:
             fails.append(('C16', 'accessor.exception', '%s raised %s instead of the documented ValueError' % (what, type(e).__name__)))
     return info, fails
+
+
+def _dual_table_accessors():
+    """the dual tables of every leaf function whose class constraints (hence tables) were generated by the solve attempt"""
+    from PEPit.function import Function
+    return [('dual tables of %s' % type(f).__name__, f.get_class_constraints_duals) for f in Function.list_of_functions
+            if f.get_is_leaf() and any(getattr(t, 'size', 0) for t in f.tables_of_constraints.values())]
 
 
 def invalid_options(seed):
@@ -632,7 +640,10 @@ def partition_resolve(seed):
         w = spy.wrappers[-1]
         m = len(part.blocks_dict)
         want = m * m * d * (d - 1) // 2
-        sent = [o for k, o in w.sent if k == 'scalar' and any(o is c for c in part.list_of_constraints)]
+        user = h.get('declared', [])          # constraints the user put on the partition are not orthogonality relations (and must still be there)
+        sent = [o for k, o in w.sent if k == 'scalar' and any(o is c for c in part.list_of_constraints) and not any(o is c for c in user)]
+        if any(not any(o is c for _, o in w.sent) for c in user):
+            fails.append(('C15', 'user_constraint_kept', 'a constraint the user declared on the partition no longer reaches the solver at the second solve'))
         if len(sent) != want:
             fails.append(('C15', 'orthogonality.at_solve', '%d orthogonality relations reach the solver for %d decomposed points and %d blocks, %d required' % (len(sent), m, d, want)))
         pep_f, h_f = models.build('T_blocks', seed)
